@@ -16,7 +16,7 @@
 (* prints <<"VIOL", clause, line, tag>>; tag names a known-finding         *)
 (* signature when the failing situation matches one exactly.               *)
 (***************************************************************************)
-EXTENDS Integers, Sequences, FiniteSets, TLC, Json, IOUtils, SeatManager, HandJson
+EXTENDS Integers, Sequences, FiniteSets, TLC, Json, IOUtils, TableMembers, HandJson
 
 VARIABLES l, g
 Trace == ndJsonDeserialize(IOEnv.TRACE)
@@ -177,6 +177,21 @@ C03_reserveAccepted(t) ==
        /\ t.a.seat # -1 => P(t.st, t.a.id).seat = t.a.seat
 \* an update that removes and adds in one call and then fails has already removed (recorded finding)
 KF_UpdatePartial(t) == t.ev = "ret:UpdateTablePlayers" /\ t.res # "ok" /\ Len(t.a.ids) > 0 /\ Len(t.a.joins) > 0
+
+\* conformance of membership calls with the tight sequential model TableMembers (a mismatch is DRIFT, not a violation)
+ToM(st) == [n |-> st.nseat,
+            players |-> [i \in 1..Len(st.players) |-> [id |-> st.players[i].id, seat |-> st.players[i].seat, bank |-> st.players[i].bank, in |-> st.players[i].in]],
+            sm |-> SmOf(st)]
+JoinRecs(j) == [i \in 1..Len(j) |-> [id |-> j[i][1], seat |-> j[i][2], chips |-> j[i][3]]]
+MOutcomes(pre, t) ==
+  CASE t.ev = "ret:PlayerReserve" -> ReserveOutcomes(pre, t.a.id, t.a.seat, t.a.chips)
+    [] t.ev = "ret:PlayerJoin" -> {JoinOutcome(pre, t.a.id)}
+    [] t.ev = "ret:PlayerRedeemChips" -> {RedeemOutcome(pre, t.a.id, t.a.chips)}
+    [] t.ev = "ret:PlayersLeave" -> {LeaveF(pre, t.a.ids)}
+    [] t.ev = "ret:UpdateTablePlayers" -> UpdateOutcomes(pre, JoinRecs(t.a.joins), t.a.ids)
+MemberConforms(t) ==
+  (t.ev \in MemberEvs /\ Len(t.pre) = 1 /\ t.res # "panic" /\ C03_bijection(t.pre[1]) /\ C03_smAgree(t.pre[1]) /\ t.st.status # "projection-panic") =>
+    MR(t.res, ToM(t.st)) \in MOutcomes(ToM(t.pre[1]), t)
 
 \* ---------------------------------------------------------------- C01
 NoHandInProgress(st) == st.status \notin HandStatuses /\ ~HasHand(st)
@@ -387,7 +402,7 @@ PubStep(t, gg) ==
                                   [i \in 1..Len(c.joins) |-> {c.joins[i][j] : j \in 3..Len(c.joins[i])}],
                                   c.blind[1], c.blind[2], c.blind[3], c.blind[4]))
   ELSE Len(gg.pubH) = 1 /\ new = Apply(gg.pubH[1], c.kind, c.amt)
-HasPubStep(t, gg) == FirstPub(t, gg) /\ gg.callQ # <<>> /\ ~gg.kfMidLeave
+HasPubStep(t, gg) == FirstPub(t, gg) /\ gg.callQ # <<>> /\ ~gg.kfMidLeave /\ t.st.rule # "short_deck"   \* (HandRules transcribes the default rule)
 C10_appliedOnce(t, gg) == (HasPubStep(t, gg) /\ gg.callQ[1].kind \in TurnKinds) => PubStep(t, gg)
 C11_autoStep(t, gg) == (HasPubStep(t, gg) /\ gg.callQ[1].kind \in {"readyall", "ante", "blinds", "next"}) => PubStep(t, gg)
 C02_handCreated(t, gg) == (HasPubStep(t, gg) /\ gg.callQ[1].kind = "create") => PubStep(t, gg)
@@ -415,6 +430,10 @@ C12_gameBlind(t, gg) ==
     /\ t.st.gblind = gg.openBlind
     /\ H(t.st).ante = gg.openBlind[2] /\ H(t.st).bl = <<gg.openBlind[3], gg.openBlind[4], gg.openBlind[5]>>
 C12_updateSticks(t, gg) == (Trusty(t) /\ Len(gg.blindSet) = 5) => t.st.blind = gg.blindSet
+\* when the level is a break as the continue handler runs, the table pauses (the break case of C08_pauseIff)
+C12_breakPauses(t, gg) ==
+  (gg.afterFire /\ ~IsRet(t) /\ ~gg.ext /\ Len(gg.fireSt) = 1 /\ BlindIsBreak(gg.fireSt[1].blind)) =>
+    (t.ev = "cb:updated" /\ t.st.status = "table_pausing")
 C12_createdOnBreak(t) == (t.ev = "ret:CreateTable" /\ t.res = "ok" /\ t.a.blind[1] = -1) => t.st.status = "table_pausing"
 
 \* ---------------------------------------------------------------- C14
@@ -453,12 +472,14 @@ CheckLine(k, gg) ==
   LET t == Trace[k]  st == t.st
       ok == st.status \notin {"none", "projection-panic"}
       kfmid == IF gg.kfMidLeave THEN "KF-midhand-leave" ELSE ""
+      midOp == gg.inGate \in {"members.add.mid", "members.remove.mid"}   \* another goroutine is parked in the middle of a membership operation
   IN
   t.ev = "scenario" \/
+  /\ (midOp \/ t.a.note = "background" \/ MemberConforms(t) \/ PrintT(<<"DRIFT", k, t.ev, t.res>>))
   /\ Clause("C03_noPanic", t.res # "panic" /\ st.status # "projection-panic" /\ t.ev # "crash", kfmid, k)
   /\ ok =>
-     /\ Clause("C03_bijection", (Trusty(t) \/ IsRet(t)) => C03_bijection(st), kfmid, k)
-     /\ Clause("C03_smAgree", (t.ev \in {"q", "end"} \/ t.ev \in MemberEvs) => C03_smAgree(st),
+     /\ Clause("C03_bijection", ((Trusty(t) \/ IsRet(t)) /\ ~midOp) => C03_bijection(st), kfmid, k)
+     /\ Clause("C03_smAgree", ((t.ev \in {"q", "end"} \/ t.ev \in MemberEvs) /\ ~midOp) => C03_smAgree(st),
                IF KF_UpdatePartial(t) THEN "KF-C03-update-partial" ELSE kfmid, k)
      /\ Clause("C03_errorUnchanged", C03_errorUnchanged(t), IF KF_UpdatePartial(t) THEN "KF-C03-update-partial" ELSE "", k)
      /\ Clause("C03_reserveAccepted", C03_reserveAccepted(t), "", k)
@@ -472,7 +493,8 @@ CheckLine(k, gg) ==
      /\ Clause("C05_continuity", C05_continuity(t, gg), "", k)
      /\ Clause("C05_maxMissed", C05_maxMissed(t, gg), "", k)
      /\ Clause("C05_newcomerFlag", C05_newcomerFlag(t), "", k)
-     /\ Clause("C06_labels", C06_labels(t), IF KF_DealerOnBBTable(st) THEN "KF-C04-dealer-on-bb" ELSE "", k)
+     /\ Clause("C06_labels", C06_labels(t), IF KF_DealerOnBBTable(st) THEN "KF-C04-dealer-on-bb"
+                                            ELSE IF KF_DealtInBetweenDealerAndSB(st) THEN "KF-C06-active-between-dealer-and-sb" ELSE "", k)
      /\ Clause("C06_engineLabels", C06_engineLabels(t, gg),
                IF Len(gg.openSt) = 1 /\ KF_DealtInBetweenDealerAndSB(gg.openSt[1]) THEN "KF-C06-active-between-dealer-and-sb" ELSE "", k)
      /\ Clause("C06_nextBB", C06_nextBB(t), "", k)
@@ -506,6 +528,7 @@ CheckLine(k, gg) ==
      /\ Clause("C12_gameBlind", C12_gameBlind(t, gg), "", k)
      /\ Clause("C12_updateSticks", C12_updateSticks(t, gg), IF gg.blindSetInGate THEN "KF-C12-lost-update" ELSE "", k)
      /\ Clause("C12_createdOnBreak", C12_createdOnBreak(t), "", k)
+     /\ Clause("C12_breakPauses", C12_breakPauses(t, gg), "", k)
      /\ Clause("C14_counters", C14_counters(t, gg), kfmid, k)
      /\ Clause("C14_one3bet", C14_one3bet(t), "", k)
      /\ Clause("C14_nonParticipantsZero", C14_nonParticipantsZero(t), kfmid, k)
